@@ -55,6 +55,16 @@ class SymInt:
 
     __rmul__ = __mul__
 
+    def __mod__(self, k):
+        if isinstance(k, (int, np.integer)) and k > 0:
+            return SymInt(self.e % int(k), self.vs)
+        raise Unsupported("SymInt % non-constant")
+
+    def __floordiv__(self, k):
+        if isinstance(k, (int, np.integer)) and k > 0:
+            return SymInt(self.e / int(k), self.vs)
+        raise Unsupported("SymInt // non-constant")
+
     def __neg__(self):
         return SymInt(-self.e, self.vs)
 
